@@ -16,7 +16,7 @@ Code it is anchored in: {files}
 
 Your workspace: create your own scratch git worktree of the repository and work only there:
   git -C /repo worktree add --detach /tmp/seed/{pid} HEAD
-(never edit /repo itself). Go commands must run offline:  cd /tmp/seed/{pid} && env -u GOFLAGS -u GOSUMDB GOPROXY=off go test -vet=off -count=1 ./<pkg>/...
+(never edit /repo itself; do NOT use `git stash` — the stash is shared between all worktrees of /repo and other people work in sibling worktrees; use `git diff > file` / `git apply` / `git checkout -- .` instead). Go commands must run offline:  cd /tmp/seed/{pid} && env -u GOFLAGS -u GOSUMDB GOPROXY=off go test -vet=off -count=1 ./<pkg>/...
 
 Task: produce TWO different, independent changes (A and B) to the non-test source code of golang/net, each of which
  (1) still compiles, (2) still passes the existing tests of the affected package(s) unedited (run them; ideally also the
